@@ -472,11 +472,15 @@ class KEval:
             return Poly.const(len(seq))
         if isinstance(seq, Ref):
             return ShapeOf(seq).get(0)
+        if isinstance(seq, Poly):
+            return Poly.fn("len", seq)
         return TOP
 
     def element_of(self, seq, idx: Poly):
         if isinstance(seq, Ref):
             return seq.index((idx,))
+        if isinstance(seq, Poly):
+            return Ref(repr(seq)).index((idx,))
         return TOP
 
     def bind_target(self, t, v, env):
@@ -727,6 +731,10 @@ class KEval:
             idx = self.index_of(e.slice, env, S, f, guards, loops, depth)
             if isinstance(base, Ref):
                 return base.index(idx)
+            if isinstance(base, Poly) and len(base.t) == 1 and list(base.t.values())[0] == 1 and len(list(base.t)[0]) == 1 \
+                    and list(base.t)[0][0][0][0] == "f" and list(base.t)[0][0][1] == 1 and list(base.t)[0][0][0][1] not in NP_ELEMENTWISE:
+                # the result of an uninterpreted call: index the result, not its arguments
+                return Ref(repr(base)).index(idx)
             if isinstance(base, Poly):
                 # element of a whole-array expression: index every array-kinded atom (elementwise semantics)
                 def sub(at):
@@ -789,6 +797,8 @@ class KEval:
                     return ShapeOf(a).get(0)
                 if isinstance(a, ShapeOf):
                     return Poly.fn("ndim", a.ref.poly())
+                if isinstance(a, Poly):
+                    return Poly.fn("len", a)
                 return TOP
             if fn.id in ("abs", "min", "max", "round", "sum", "bool", "pow"):
                 sc = [self.scalar(a) for a in args]
@@ -866,6 +876,13 @@ class KEval:
                     return Poly.fn(name, *sc, *kws)
             return TOP
 
+        # a python list that is grown in place is no longer the literal it started as
+        if isinstance(fn, ast.Attribute) and name in ("append", "extend", "insert", "pop", "remove") and isinstance(fn.value, ast.Name) \
+                and isinstance(env.get(fn.value.id), tuple):
+            r = Ref(fn.value.id + "#list")
+            r.opaque_local = True
+            env[fn.value.id] = r
+            return Const(None)
         # array methods
         if isinstance(fn, ast.Attribute):
             base = self.ev(fn.value, env, S, f, guards, loops, depth)
@@ -916,19 +933,38 @@ class KEval:
                         return tuple(rename(x) for x in v)
                     return v
                 carried = isinstance(r, Poly) and any(a[0] == "s" and a[1].endswith("~") for a in r.all_atoms())
+                if isinstance(r, Ref) and getattr(r, "opaque_local", False):
+                    return self.opaque_call(e, name, args, kw, env, S, f, guards, loops, depth)
                 if isinstance(r, Top) or carried:
                     # the result depends on loop-carried state of the callee (a count, a running sum): keep it as an
                     # uninterpreted application of the callee to its arguments
                     sc = [self.scalar(cargs[k]) for k in callee.all_params if k in cargs]
                     if all(isinstance(x, Poly) for x in sc):
                         return Poly.fn(callee.name, *sc)
+                    return self.opaque_call(e, name, args, kw, env, S, f, guards, loops, depth)
                 return rename(r) if r is not None else Const(None)
         if tg:
             S.calls.append((tg[0].key, {}, guards, e))
         sc = [self.scalar(a) for a in args] + [self.scalar(v) for _, v in sorted(kw.items())]
         if sc and all(isinstance(x, Poly) for x in sc) and name:
             return Poly.fn(name, *sc)
-        return TOP
+        return self.opaque_call(e, name, args, kw, env, S, f, guards, loops, depth)
+
+    def opaque_call(self, e, name, args, kw, env, S, f, guards, loops, depth):
+        """an unknown call result: a symbolic value identified by the callee and its evaluated arguments"""
+        if name is None:
+            return TOP
+
+        def r(v, node):
+            if isinstance(v, Top):
+                return "src:" + unparse(node)[:60]
+            return repr(v)
+        recv = ""
+        if isinstance(e.func, ast.Attribute):
+            b = self.ev(e.func.value, env, S, f, guards, loops, depth)
+            recv = (r(b, e.func.value) + ".") if not (isinstance(b, Ref) and b.name in ("np", "numpy")) else "np."
+        parts = [r(v, n) for v, n in zip(args, e.args)] + [f"{k.arg}={r(kw[k.arg], k.value)}" for k in e.keywords if k.arg in kw]
+        return Ref(f"{recv}{name}({', '.join(parts)})")
 
     def to_int(self, p):
         if not isinstance(p, Poly):
